@@ -17,6 +17,8 @@ TRUSTED_BASE = [
     "hand-written Lean model of bc-envelope (lean/EnvVerif/Model); its fidelity to /repo is checked by differential execution of generated scenarios (correspondence), which sees what the generators reach",
     "EVL interpreter and canonicaliser in the Rust harness (harness/src/interp.rs) and in Lean (Model/Interp.lean)",
     "dependencies modelled by stated laws, not verified: SHA-256 (bc-crypto; the model computes it with its own implementation and digests are compared), ChaCha20-Poly1305, signatures, KEMs, SSKR, DEFLATE/CRC-32 of compressed elements, RNG, dcbor byte codec (NFC, Date, float reduction)",
+    "the `saltrange` observation: the two products of the proportional salt range are rounded with the compiled driver's IEEE doubles (Float; part of the driver, of no theorem - the theorems quantify over the rounded values), and the range is read off add_salt_using under constant generators, relying on bc-rand's multiply-and-take-the-high-word range selection as read from its source",
+    "the harness is built with overflow-checks = true: arithmetic overflow in /repo panics in the checks as it would in a debug build",
     "dependencies modelled concretely and compared byte for byte by the correspondence check: the dCBOR tree codec, dcbor's map ordered by encoded key (sets and maps as content), bytewords (minimal) + CRC-32 + UR framing of bc-ur / ur (ASCII input only)",
 ]
 
